@@ -164,14 +164,16 @@ def rendering_texts(w, cpu, unit, align):
     return [t for t in r.get("texts", b"").decode("latin-1").split("\n") if t.strip()]
 
 
-def templates_of(cpu, extra_texts=None, extra_limit=150):
+def templates_of(cpu, extra_texts=None, extra_limit=400):
     seen = set()
     templates = []
     regseen = set()
     universe = [(t, False) for t in (c02.universe(cpu) if cpu in progs.CPU_FILES else [])]
     extras = []
-    for t in extra_texts or []:
-        t = c07.strip_annotation(t) if hasattr(c07, "strip_annotation") else t
+    import hashlib
+    # renderings in a fixed pseudo-random order (not by opcode value: prefixed forms such as z80 DD CB .. come last there),
+    # so that the limit and the quick tier's stride take an even sample of the forms
+    for t in sorted(extra_texts or [], key=lambda x: hashlib.sha1(x.encode("latin-1")).hexdigest()):
         extras.append((t, True))
     for t, from_rendering in universe + extras:
         if from_rendering:
@@ -249,6 +251,8 @@ def run(tier, seed, shard, nshards):
         allc = list(c02.CPUS) + sorted(n for n in info if n not in progs.CPU_FILES.values() and n not in c02.CPUS
                                        and rev.get(n) is None and n not in ("ps2_ee_vu0", "ps2_ee_vu1"))
         cpus = [c for i, c in enumerate(allc) if i % nshards == shard]
+        if os.environ.get("NV_C06_CPUS"):                  # development aid
+            cpus = [c for c in cpus if c in os.environ["NV_C06_CPUS"].split(",")]
         for cpu in cpus:
             directive = progs.CPU_FILES.get(cpu, cpu)
             unit = units.get(directive, 1)
@@ -261,7 +265,7 @@ def run(tier, seed, shard, nshards):
             s.count("templates.from_renderings", len(rend))
             s.count("templates.from_corpus", len(corp))
             if tier == "quick":
-                rend = rend[::12]                      # subset of the thorough tier's list
+                rend = rend[::24]                      # subset of the thorough tier's list
                 if len(corp) > 30:
                     # one-operand forms first (branches, jumps, calls, pushes: the hole is the whole operand list), then a
                     # deterministic spread over the rest and a seeded extra sample
